@@ -17,6 +17,10 @@ CHECKS = {
          "Generated tables (1-5 partitions), key lists of 1-3 columns/expressions with mixed directions, limits and offsets in 0..rows+2 weighted around half the partition length; judged in both directions by a validity predicate (length, key tuple per position, rows distinct and genuine, cells equal the model; ingestion order without ORDER BY).",
          "DESIGN.md 4 C05", "Reference order from eval.rs; ties may permute; shapes listed as known findings (expression keys under streaming, multi-key with NULL leading key, nullable top-n, key Null-typed in a partition) are excluded by construction and counted.",
          "property-based testing (proptest) with a validity-predicate oracle over a reference order"),
+ "C04": ("exploration",
+         "Generated tables (1-5 partitions) and select lists mixing 0-3 grouping expressions with subsets of count/sum/min/max/avg over int and float columns and an optional WHERE, compared as a multiset of group rows with a reference group-by (ints exact, float sums within the reordering tolerance); row and column views must agree. The unchanged engine fails large parts of this space (multi-key grouping, NULL keys across partitions, streaming): those classes are listed as known findings, excluded by construction and counted, so the judged lane is mainly 0/1-key grouping.",
+         "DESIGN.md 4 C04", "Reference group-by in eval.rs; AVG(int) is the integer quotient; COUNT(col) = NULL accepted where 0 is expected while KF-count-all-null is open.",
+         "property-based testing (proptest) with a reference group-by (differential oracle, multiset comparison)"),
 }
 
 NOT_YET = {
